@@ -868,6 +868,8 @@ class World:
         raw.__qualname__ = owner
         run.idmap[id(raw)] = owner
         fn = self._decorate(raw, owner, ms)
+        if ms.get("wraps"):
+            fn = _foreign_wraps(fn)
         if kind == "static":
             return staticmethod(fn)
         if kind == "class":
@@ -891,6 +893,22 @@ class World:
         run.idmap[id(raw)] = owner
         return self._decorate(raw, owner, ispec)
 
+    def _spec_has_init(self, cname):
+        seen = set()
+        todo = [cname]
+        while todo:
+            c = todo.pop()
+            if c in seen or c not in self.cspec:
+                continue
+            seen.add(c)
+            cs = self.cspec[c]
+            if cs.get("init") is not None:
+                return True
+            if cs.get("base"):
+                todo.append(cs["base"])
+            todo.extend(cs.get("bases2", ()))
+        return False
+
     def _build_class(self, cs):
         run = self.run
         cname = cs["name"]
@@ -904,9 +922,10 @@ class World:
             bases.append(self.classes[b2])
         if cs.get("dbc", True) and not any(isinstance(b, icontract.DBCMeta) for b in bases):
             bases.append(icontract.DBC)
-        ns = {"__qualname__": cname, "__module__": "verif_world"}
+        pyname = cs.get("pyname", cname)  # several generated classes may deliberately share one Python name
+        ns = {"__qualname__": pyname, "__module__": "verif_world"}
         if cs.get("init") is not None:
-            init_base = base_cls if (base_cls is not None and _has_py_init(base_cls)) else None
+            init_base = base_cls if (base_cls is not None and self._spec_has_init(base_name)) else None
             ns["__init__"] = self._build_init(cname, cs["init"], init_base)
         for ms in cs.get("methods", ()):
             ns[ms["name"]] = self._build_member(cname, ms)
@@ -926,7 +945,7 @@ class World:
             self._flags.update(flags)
 
         ns["_poke"] = _poke
-        cls = type(bases[0])(cname, tuple(bases), ns) if bases else type(cname, (), ns)
+        cls = type(bases[0])(pyname, tuple(bases), ns) if bases else type(pyname, (), ns)
         # invariants: decorator nearest the class first
         for i, inv in enumerate(cs.get("invs", ())):
             sid = "%s/inv%d" % (cname, i)
@@ -1054,6 +1073,26 @@ class World:
                 return (lambda: getattr(obj, fn)), unit, td["obj"]
             return (lambda: setattr(obj, fn, t)), unit, td["obj"]
         raise HarnessError("unknown op %r" % op)
+
+
+def _foreign_wraps(f):
+    """A third-party style decorator (functools.wraps) stacked above the contract decorators."""
+    import functools
+    import inspect
+
+    if inspect.iscoroutinefunction(f):
+
+        @functools.wraps(f)
+        async def w(*a, **k):
+            return await f(*a, **k)
+
+    else:
+
+        @functools.wraps(f)
+        def w(*a, **k):
+            return f(*a, **k)
+
+    return w
 
 
 def _has_py_init(cls):
